@@ -268,6 +268,19 @@ func (g *gen) special(kind int) command {
 	case 15:
 		c.pieces = []piece{{data: []byte(fmt.Sprintf("%s APPEND box (\\Seen) {3}\r\n", c.tag)), waitCont: true, contKind: "literal"}, {data: []byte("abc extra words\r\n")}}
 		c.desc = "APPEND (sync literal) with trailing words after the literal"
+	case 16:
+		c.pieces = []piece{{data: []byte(fmt.Sprintf("%s LIST \"\" {4+}\r\n&AA- RETURN (CHILDREN)\r\n", c.tag))}}
+		c.desc = "LIST whose accepted literal pattern is invalid UTF-7, with more text on the line"
+	case 17:
+		c.pieces = []piece{{data: []byte(fmt.Sprintf("%s STATUS {3+}\r\nbox (BOGUS-ITEM MESSAGES)\r\n", c.tag))}}
+		c.desc = "STATUS with an accepted literal then an unknown item"
+	case 18:
+		c.pieces = []piece{{data: []byte(fmt.Sprintf("%s SELECT {5}\r\n", c.tag)), waitCont: true, contKind: "literal"}, {data: []byte("&AAAA extra tokens\r\n")}}
+		c.desc = "SELECT with an accepted sync literal (invalid UTF-7) and trailing tokens"
+	case 19:
+		g.nMarker++
+		c.pieces = []piece{{data: []byte(fmt.Sprintf("%s LIST \"\" {4+}\r\n&AA-MK%d CREATE MARKER%d\r\n", c.tag, g.nMarker, g.nMarker))}}
+		c.desc = "LIST whose accepted literal is invalid UTF-7, directly followed by command-like text on the same line"
 	case 13:
 		c.pieces = []piece{{data: []byte(fmt.Sprintf("%s LOGIN {%d+}\r\n%s {2+}\r\nhi\r\n", c.tag, len(p), p))}}
 		c.desc = "two non-sync literals (may be refused after authentication)"
@@ -554,7 +567,7 @@ func body(w *hx.W) {
 				}
 			}
 			// specials
-			for k := 0; k <= 15; k++ {
+			for k := 0; k <= 19; k++ {
 				for _, state := range []string{"notauth", "auth"} {
 					if (k >= 9 && k <= 11) && state == "notauth" {
 						continue
@@ -584,7 +597,7 @@ func body(w *hx.W) {
 					}
 					fallthrough
 				case 1:
-					k2 := g.rng.Intn(16)
+					k2 := g.rng.Intn(20)
 					if (k2 >= 6 && k2 <= 8) || (k2 >= 9 && k2 <= 11 && state == "notauth") {
 						k2 = g.rng.Intn(6)
 					}
